@@ -20,3 +20,9 @@ def register(add):
         replace=[G('util_bits_dig'), G('ep_param_level'), G('ep_mul_lwnaf'), G('fp_prime_back'), G('md_kdf'), G('md_hmac'), G('util_cmp_sec'), G('bc_aes_cbc_dec')],
         note='callees abstract; bn_size_bin/bn_bits/bn_write_bin of the shared secret are the real code (inlined)',
         bound_note='byte loops of bn_write_bin bounded by the 33-byte coordinate buffer; unwound completely')
+    add('cp_ecss_ver', ['C05'], 'cp_ecss_ver', sources=['src/cp/relic_cp_ecss.c', 'src/bn/relic_bn_mem.c'], headers=['cp_ecdsa.h', 'cp_state.h'], defines=['VC_WITH_ECSS'],
+        conf='base', route='proof', unwind=80, flags=['--object-bits', '10'], timeout=600,
+        decls='bn_st *e, *s; const uint8_t *msg; size_t len; ep_st *q;', call='cp_ecss_ver(e, s, msg, len, q)',
+        replace=[G('bn_sign'), G('bn_is_zero'), G('bn_cmp'), G('bn_bits'), G('ep_on_curve'), G('ep_is_infty'), G('ep_curve_get_ord'),
+                 G('md_map_sh256'), G('bn_read_bin'), G('bn_rsh'), G('bn_mod_basic'), G('ep_mul_sim_gen'), G('fp_prime_back'), G('dv_cmp_sec'), G('bn_write_bin')],
+        note='every callee is an ABSTRACT contract (frame + recorded verdict)', bound_note='memcpy of the message (<= 72 bytes) unwound; otherwise loop-free')
